@@ -185,6 +185,25 @@ pub fn lattice_orient(cx: &mut Ctx, case: &Value) {
             }
         }
     }
+    // the f32 kernel on triples that mix magnitudes: q = (k, k) and r = (3, 3) on the main diagonal, p = t (2, 1) or t (1, 2) with
+    // t tiny: (r - q) x (p - q) = (3 - k) t (p.y - p.x) / t ... its sign is that of p.y - p.x whatever t is (structural, no
+    // arithmetic): clockwise for (2, 1), counter-clockwise for (1, 2); likewise mirrored through the origin
+    if a == (0, 0) && b == (1, 0) {
+        for t in [1e-20f32, 1e-30, 2f32.powi(-100), 2f32.powi(-140), 1e-3, 1.0] {
+            for (px, py, want) in [(2.0f32, 1.0f32, -1i64), (1.0, 2.0, 1), (-2.0, -1.0, 1), (-1.0, -2.0, -1)] {
+                for k in [1.0f32, 2.0, -5.0] {
+                    let (p, q, r) = (Coord { x: px * t, y: py * t }, Coord { x: k, y: k }, Coord { x: 3.0f32, y: 3.0 });
+                    let got = [sign_of(RobustKernel::orient2d(q, r, p)), sign_of(RobustKernel::orient2d(r, p, q)), sign_of(RobustKernel::orient2d(p, q, r)), -sign_of(RobustKernel::orient2d(r, q, p))];
+                    let w = if k > 3.0 { -want } else { want };
+                    if got == [w; 4] { cx.ok("orient2d_f32_mixed_magnitudes"); } else {
+                        cx.bad("C03", "orient2d_f32_mixed_magnitudes", case, json!({"what": format!("f32: p = {t:e} * ({px}, {py}), q = ({k}, {k}), r = (3, 3)"), "got": got, "want": w}));
+                    }
+                    let on = Line::new(q, r).intersects(&p);
+                    if !on { cx.ok("orient2d_f32_mixed_magnitudes"); } else { cx.bad("C03", "orient2d_f32_mixed_magnitudes", case, json!({"what": format!("f32: Line(q, r).intersects(p), p = {t:e} * ({px}, {py})"), "got": on})); }
+                }
+            }
+        }
+    }
     // the two other kernel helpers: sign of a dot product (robust) and the squared distance
     {
         let want = case["dots"].as_i64().unwrap();
